@@ -150,8 +150,11 @@ reg("C11",
          "with period 2*pi (also +-10^6 turns), the stated direction of increasing longitude, longitude 0 at the centre / right edge / left edge, +90 on the top row, the mirror/shift "
          "relations and cell refinement under doubling; that the closed forms and an exact-arithmetic transcription of vec2pix compute that cell; and emits the expected arange-map "
          "value for every (lon unit, lat unit). Every table is replayed through the real sampler (scalar, RGB and list maps, four request shapes: value per point, result shape, no "
-         "exception) and sky tables through plate_carree_galactic_sampler at astropy's ICRS pre-images.",
-    note="Test angles are odd multiples of 1/(4g) of a cell (never on a cell boundary), poles included. astropy's ICRS<->Galactic rotation, TLC and the JSON bridge are trusted. "
+         "exception) and sky tables through plate_carree_galactic_sampler at astropy's ICRS pre-images. A third point family puts the angles exactly on the cell edges, corners, seam and "
+         "poles, where TLC emits the set of admissible cells (Boundary theorem) and the real value must be one of them in three float renderings; every sampler is additionally driven "
+         "through call sequences whose requests collide on shape, first/last point and every order-insensitive digest (permuted interior, alternating samplers of different maps, "
+         "request arrays modified in place), each point's answer having to stay TLC's value.",
+    note="Interior test angles are odd multiples of 1/(4g) of a cell; points exactly on an edge are judged against a two- or four-element admissible set; poles included. astropy's ICRS<->Galactic rotation, TLC and the JSON bridge are trusted. "
          "Ecliptic and chunked samplers are outside the anchors.",
     technique="TLA+/TLC model checking of the layout theorems over a bounded configuration space + TLC-produced expected cells replayed into the real samplers",
     design_ref="DESIGN.md 4.10 (PlateCarree.tla), 5/C11")
@@ -165,7 +168,9 @@ reg("C16",
          "never influences a later flip/ensure). Every case's predicted signs, row orders of both views, header values and per-pixel world tables are replayed into real astropy WCS "
          "objects and real toasty objects: Image.from_array (F32, RGB), ImageDescription, and PIL-backed Images (from_pil RGB/RGBA, ImageLoader on an 'L' bitmap and on a png file) "
          "after each pre-call history (nothing, asarray, dtype, aspil, shape): flip, flip, ensure, ensure; signs, data rows through asarray() and aspil(), wcs_pix2world per pixel "
-         "(1e-9 deg), linear stage vs TLC's table; header values as drift only.",
+         "(1e-9 deg), linear stage vs TLC's table; header values as drift only. TLC also generates every call history of length 4 (thorough 5) over flip / ensure (x data "
+         "reads for PIL-backed objects) for a thin header set, with EnsureAlwaysNegative checked on every history, and each history is replayed on one real object and compared "
+         "with the spec's state after every call.",
     note="Linear TAN WCS with non-singular integer matrices x 1e-3 deg; sizes to 4x6 (quick 3x5); PIL-backed kinds on every 4th header, every (backing, history, starting sign) "
          "combination required. Singular matrices have no parity and are excluded. astropy's projection is trusted.",
     technique="TLA+/TLC exhaustive exploration of the flip/ensure/touch state machine over enumerated integer WCS cases + replay of every case's predicted outcome into the real code",
@@ -177,7 +182,9 @@ reg("C15",
          "sentences of C15 for every step. FileSpec: one tile file of a PyramidIO per lossless format under Write(mode, tile) / ReadNone / ReadMasked for the eight modes from every "
          "file state, with the persistence sentences as invariant / action properties. TLC's complete transition tables are then executed on real toasty Images of all eight modes "
          "(chains of real clear/fill/update calls on real maskable buffers; write/read histories on a real PyramidIO in png, npy and fits) and the projected real state is compared "
-         "with TLC's after every call.",
+         "with TLC's after every call. A third machine (PairSpec) has two tile positions on one PyramidIO with up to two live buffers (read_image(default='masked') results or nested "
+         "update_image contexts): LiveBuffersAreIndependent, MissingTileOpensAllUndefined, PositionStoredFromItsOwnBuffer; every emitted transition is walked on a real PyramidIO. "
+         "Infinities are defined float values; every fourth file write goes through update_image on a handle whose default format differs from the explicit format.",
     note="Bounded: 2x2 grid exhaustive, 2x3 from sampled priors, abstract values {undefined, 1, 2}. Integer modes only with non-negative values; 'all-undefined never stored' only for "
          "RGBA/F32/F64/F16x3; update only with slice indexers. Trusted: TLC, the JSON bridge, the per-mode value map/projection of the harness.",
     technique="TLA+/TLC exhaustive model checking of the buffer and tile-file machines + replay of every TLC transition into the real code with state comparison after each call",
@@ -225,7 +232,7 @@ reg("C09",
          "input order x storage-parity assignment x both tile parities of all two-input decompositions of small mosaics and seeded 2-4-input ones with undefined borders/holes: placement "
          "recovers the ground truth, tiles equal StudyTiling's single-image tiling of the pasted image after every prefix, order and parity independence, undefined never overwrites; and "
          "over all interleavings of 2-3 workers: mutual exclusion, no lost contribution, equality with the serial result, no lock files left, termination. The harness draws real "
-         "decompositions, TLC evaluates the same operators at tile size 256 for exactly those file sets, and the real code (serial, deterministic scheduler, real processes, CLI; fits and "
+         "decompositions, (incl. grids rotated by exactly 0, +-90, 180 and 45 degrees in CD and PC+CDELT form, and a later input covering a whole aligned tile of an earlier one) TLC evaluates the same operators at tile size 256 for exactly those file sets, and the real code (serial, deterministic scheduler, real processes, CLI; fits and "
          "npy tiles) must reproduce TLC's tiles, the real single-image tiling of the pasted mosaic, TLC's integer ImageSet fields (1e-9) and leave no *.lock file.",
     note="Float inputs with CD-matrix WCS only. Exhaustive only in the spec (mosaics up to 3x2 px quick / 4x3 thorough at tile size 2; seeded beyond); real code sampled over decompositions "
          "and schedules. Queue hand-over (C03) and SoftFileLock exclusion (C10) are assumed. With filelock 4 the lock marker vanishes on release, so the clean-up sentence is exercised "
